@@ -2,6 +2,7 @@ package checks
 
 import (
 	"fmt"
+	"io"
 	"sort"
 	"sync"
 	"sync/atomic"
@@ -476,6 +477,18 @@ func runC05(c *kit.Ctx) {
 		{"hls-recently-accessed", kit.SDPH264AAC, func(s *media.Stream) {
 			if h := s.Hlsable(); h != nil {
 				h.M3u8("")
+			}
+		}, time.Hour, false},
+		// what a player does: refresh the playlist, then download a segment - the segment request (whether or not the
+		// sequence number is still listed) is the most recent HLS access
+		{"hls-segment-recently-requested", kit.SDPH264AAC, func(s *media.Stream) {
+			if h := s.Hlsable(); h != nil {
+				h.M3u8("")
+				if r, _, err := h.Segment(0); err == nil {
+					if cl, ok := r.(io.Closer); ok {
+						cl.Close()
+					}
+				}
 			}
 		}, time.Hour, false},
 	}
